@@ -71,6 +71,20 @@ def ber_variants(plan, rng, tier):
                     elif n.lf == "i":
                         n.lf = "l%d" % rng.range(3, 5)
         emit("mix-uniform")
+    # every OCTET STRING in constructed form: the segments are UNIVERSAL 4 whatever the tags of the type and of
+    # the member are (chains kept uniform: definite, then indefinite where every TLV of the chain is constructed)
+    if any(n.kind == "o" for n in nodes):
+        for form in ("d", "i"):
+            plan.reset()
+            for n in nodes:
+                if n.kind == "o":
+                    n.seg = U.random_seg(len(n.content), rng)
+            if form == "i":
+                for c in plan.chains:
+                    if all(n.cons or n.seg is not None for n in c):
+                        for n in c:
+                            n.lf = "i"
+            emit("seg-all")
     plan.reset()
     seen, res = set(), []
     for v in out:
@@ -325,6 +339,28 @@ def main(tier):
         run.violation("build", {"what": str(e)[-2500:]}, no_input=True)
         return run.finish("proof", (nthm, ndis))
     model = model_build()
+    # hand-made module: OCTET STRING types and members under IMPLICIT / EXPLICIT tags
+    sm = U.string_module()
+    build_modules([sm], tag="c03x")
+    mods.append(sm)
+    if sm.get("exe"):
+        sc = []
+        for tn, _ in sm["defs"]:
+            tree, seen = sm["trees"][tn], set()
+            for _ in range(6 if tier == "quick" else 16):
+                vs = val_str(value(tree, rng))
+                if vs not in seen:
+                    seen.add(vs)
+                    sc.append({"mod": sm, "tn": tn, "ts": model_str(tree), "vs": vs})
+        ml = []
+        for c in sc:
+            ml += ["der %s %s" % (c["ts"], c["vs"]), "uper 0 %s %s" % (c["ts"], c["vs"]), "uper 1 %s %s" % (c["ts"], c["vs"]), "oer %s %s" % (c["ts"], c["vs"])]
+        rcm, mo, me = run_lines(model, ml, timeout=600)
+        if rcm != 0 or len(mo) != len(ml):
+            raise RuntimeError("model driver failed (MO3): %s %s" % (rcm, me))
+        for i, c in enumerate(sc):
+            c["der"], c["uper"], c["uperstd"], c["oer"] = mo[4 * i:4 * i + 4]
+        cases += [c for c in sc if c["der"] != "NONE"]
     for m in mods:
         if not m.get("exe"):
             run.violation("build:module", {"what": "a valid generated module was rejected or its code does not compile", "module": m["text"],
